@@ -16,6 +16,9 @@ PLAIN_COMMENTS = [b'user@host', b'two words', b'"quoted"', b'back\\slash\\', b'#
 HARD_COMMENTS = [b' lead', b'trail ', b'with\nnewline', b'\tx\t', b'cr\rlf', b'ends with backslash\\', b'"', b'a"b',
                  b'\x00nul', b'line1\nssh-ed25519 AAAAC3NzaC1lZDI1NTE5AAAAIAAAAAAAAAAAAAAAAAAAAAAAAAAAAAAAAAAAAAAAAAAA injected']
 PASSPHRASES = ['pw', b'pw', 'pässwörd✓', b'', '', b'\x00\xff bin', 'x' * 200]
+LONG_PW = 'correct horse battery staple 0123456789 ABCDEF'          # > 32 characters: two blocks in the PKCS#12 KDF
+# always tried with the PKCS#12 (PBES1) schemes: ASCII, non-ASCII UTF-8 bytes, bytes that are not UTF-8, long str/bytes
+P12_PASSPHRASES = [b'pw', 'pässwörd✓'.encode('utf-8'), b'\xff\xfe not utf8', LONG_PW, LONG_PW.encode()]
 CARRIES_COMMENT = {'openssh'}                       # private formats that store the comment
 PUB_CARRIES_COMMENT = {'openssh', 'rfc4716'}
 
@@ -154,7 +157,8 @@ def check_public_roundtrip(ctx, alg, kw, key, fmt, comment, hard=False):
     try:
         data = key.export_public_key(fmt)
     except asyncssh.KeyExportError:
-        ctx.count('sweep.public.export_refused')
+        # a reported failure, not a violation: the format cannot carry the key / this comment
+        ctx.count('sweep.public.export_refused' + ('.newline_comment' if comment and (b'\n' in comment or b'\r' in comment) else ''))
         return 'refused'
     finally:
         key.set_comment(None)
@@ -173,7 +177,7 @@ def check_public_roundtrip(ctx, alg, kw, key, fmt, comment, hard=False):
         if k2.get_comment_bytes() != (comment or None) or len(lst) != 1:
             what = (f'{alg} public key exported as {fmt} with comment {comment!r} reads back with comment '
                     f'{k2.get_comment_bytes()!r}; the exported text holds {len(lst)} key(s)')
-            ctx.failing_input(what, dict(rp, keys_in_file=len(lst)))
+            ctx.failing_input(what, dict(rp, keys_in_file=len(lst), read_back=_b(k2.get_comment_bytes())))
             return 'fail'
     return 'ok'
 
@@ -252,7 +256,11 @@ def check_pyca(ctx, alg, kw, key, rng, thorough):
              ('pkcs8-der', {'cipher_name': 'des3-cbc', 'hash_name': 'sha512'}, 'päss'),
              ('pkcs1-pem', {'cipher_name': 'aes256-cbc'}, b'pw'), ('pkcs1-pem', {'cipher_name': 'des3-cbc'}, b'pw'),
              ('pkcs8-der', {'cipher_name': 'des3-cbc', 'hash_name': 'sha1', 'pbe_version': 1}, b'pw'),
-             ('pkcs8-der', {'cipher_name': 'des3-cbc', 'hash_name': 'sha1', 'pbe_version': 1}, 'pw')]
+             ('pkcs8-der', {'cipher_name': 'des3-cbc', 'hash_name': 'sha1', 'pbe_version': 1}, 'pw'),
+             ('pkcs8-der', {'cipher_name': 'des3-cbc', 'hash_name': 'sha1', 'pbe_version': 1}, 'pässwörd✓'.encode('utf-8')),
+             ('pkcs8-der', {'cipher_name': 'des3-cbc', 'hash_name': 'sha1', 'pbe_version': 1}, LONG_PW),
+             ('pkcs8-pem', {'cipher_name': 'rc4-128', 'hash_name': 'sha1', 'pbe_version': 1}, LONG_PW.encode()),
+             ('pkcs8-pem', {'cipher_name': 'aes256-cbc', 'hash_name': 'sha512', 'pbe_version': 2}, LONG_PW.encode())]
     for fmt, opts, pw in cfgs:
         try:
             data = key.export_private_key(fmt, passphrase=pw, **opts)
@@ -603,10 +611,13 @@ def check_openssl_cli(ctx, pool, tmp):
         plain = key.pyca_key.private_bytes(ser.Encoding.PEM, ser.PrivateFormat.PKCS8, ser.NoEncryption())
         src = os.path.join(tmp, 'ossl-in.pem')
         _write(src, plain)
-        for scheme in (['-v1', 'PBE-SHA1-3DES'], ['-v2', 'aes-256-cbc'], ['-v2', 'aes-128-cbc', '-v2prf', 'hmacWithSHA512']):
+        for scheme, word in ((['-v1', 'PBE-SHA1-3DES'], 'pw'), (['-v2', 'aes-256-cbc'], 'pw'),
+                             (['-v2', 'aes-128-cbc', '-v2prf', 'hmacWithSHA512'], 'pw'),
+                             (['-v1', 'PBE-SHA1-3DES'], LONG_PW), (['-v1', 'PBE-SHA1-3DES'], 'pässwörd✓'),
+                             (['-v1', 'PBE-SHA1-RC4-128'], LONG_PW)):
             out = os.path.join(tmp, 'ossl-out.pem')
             try:
-                p = subprocess.run([exe, 'pkcs8', '-topk8', '-in', src, '-out', out, '-passout', 'pass:pw'] + scheme,
+                p = subprocess.run([exe, 'pkcs8', '-topk8', '-in', src, '-out', out, '-passout', 'pass:' + word] + scheme,
                                    stdout=subprocess.PIPE, stderr=subprocess.PIPE, timeout=60)
             except Exception:                  # noqa
                 continue
@@ -614,7 +625,7 @@ def check_openssl_cli(ctx, pool, tmp):
                 ctx.count('sweep.openssl.write_private.unsupported_by_openssl')
                 continue
             data = open(out, 'rb').read()
-            for pw in ('pw', b'pw'):
+            for pw in (word, word.encode('utf-8')):
                 ctx.note_case(('openssl-write-private', alg, tuple(scheme), pw), nontrivial=True)
                 try:
                     k2 = asyncssh.import_private_key(data, pw)
@@ -626,7 +637,7 @@ def check_openssl_cli(ctx, pool, tmp):
                 ctx.count('sweep.openssl.write_private.' + ('ok' if ok else 'fail'))
                 if not ok:
                     ctx.failing_input(f'asyncssh cannot import the {alg} key encrypted by "openssl pkcs8 -topk8 {" ".join(scheme)}" with '
-                                      f'password "pw" when the passphrase is given as {pw!r}: {err}',
+                                      f'password {word!r} when the passphrase is given as {pw!r}: {err}',
                                       _rp('openssl_write_private', alg, kw, format='pkcs8-pem', scheme=scheme, passphrase=_b(pw),
                                           passphrase_is_bytes=isinstance(pw, bytes), opts={'pbe_version': 1 if '-v1' in scheme else 2},
                                           data=data.hex()))
@@ -715,6 +726,8 @@ def run_sweep(ctx, pool):
         for alg, kw, key in pool:
             for fmt, opts, encrypted in cfgs:
                 pws = [None] if not encrypted else (PASSPHRASES if thorough else [rng.choice(PASSPHRASES)])
+                if encrypted and opts.get('pbe_version') == 1 and opts.get('cipher_name') != 'des-cbc':
+                    pws = pws + [p for p in P12_PASSPHRASES if p not in pws]
                 if fmt == 'openssh':
                     cms = [None] + PLAIN_COMMENTS + HARD_COMMENTS
                 else:
@@ -762,5 +775,12 @@ def run_sweep(ctx, pool):
                                    'format': 'any', 'exception': type(e).__name__, 'where': inside})
         if n_ok < 50:
             ctx.broke('vacuity:sweep', f'only {n_ok} private export/import cases succeeded')
+        d = ctx.cov['distribution']
+        for need in ('sweep.wrong_passphrase.rejected', 'sweep.cross_type_passphrase.ok', 'sweep.pyca.write_private.ok',
+                     'sweep.pyca.read_private.ok.pkcs8-der', 'sweep.lists.private.openssh', 'sweep.cert.roundtrip.ok'):
+            if not d.get(need):
+                ctx.broke('vacuity:' + need, 'the sweep never reached this class')
+        if not (d.get('sweep.public.export_refused.newline_comment') or ctx.cov['oracle'].get('failing_groups')):
+            pass
     finally:
         shutil.rmtree(tmp, ignore_errors=True)
